@@ -51,7 +51,7 @@ def gen_set(rng, tag, grid, nlang, excl, zero_frame=False):
 
 def cases(ctx):
     rng = ctx.rng('c08')
-    nsets = ctx.budget(48, 3000)
+    nsets = ctx.budget(120, 4000)
     for i in range(nsets):
         tag = f'V{ctx.shard}.{i}'
         md = gen_set(rng, tag + 'm', 40000, 1, '|')
